@@ -338,3 +338,47 @@ m('C01-r1', 'C01', W + 'worterbuch.rs', """        match self.store.delete(&path
         match self.store.delete(&path)? {
             Some((value, ls_subscribers)) => {""", None)
 m('C03-r1', 'C03', W + 'worterbuch.rs', """            .filter(|s| value_changed || !s.is_unique())""", """            .filter(|s| !s.is_unique() || value_changed)""", None)
+# or-pattern folded into one guarded arm (the behaviour-preserving half of seeded C02-2)
+m('C02-r2', 'C02', W + 'store.rs', """            (Some(ValueEntry::Plain(current)), ValueEntry::Cas(val, 0), _)
+            | (Some(ValueEntry::Plain(current)), ValueEntry::Cas(val, _), true) => {
+                // plain value present, we can insert cas value if version is 0 or insertion is forced
+                (true, current != &val, ValueEntry::Cas(val, 1))
+            }
+            (Some(ValueEntry::Plain(_)), ValueEntry::Cas(_, _), false) => {""",
+  """            (Some(ValueEntry::Plain(current)), ValueEntry::Cas(val, v), force)
+                if v == 0 || force =>
+            {
+                // plain value present, we can insert cas value if version is 0 or insertion is forced
+                (true, current != &val, ValueEntry::Cas(val, 1))
+            }
+            (Some(ValueEntry::Plain(_)), ValueEntry::Cas(_, _), _) => {""", None)
+# one pass over the key/value pairs instead of two (the behaviour-preserving half of seeded C03-2)
+_KAB_OLD = """        kvps.iter()
+            .any(|kvp| self.set_buffer.contains_key(&kvp.key))
+            || kvps
+                .iter()
+                .any(|kvp| self.deleted_buffer.contains_key(&kvp.key))"""
+_KAB_NEW = """        kvps.iter().any(|kvp| {
+            self.set_buffer.contains_key(&kvp.key) || self.deleted_buffer.contains_key(&kvp.key)
+        })"""
+m('C16-r1', 'C16', W + 'worterbuch.rs', _KAB_OLD, _KAB_NEW, None)
+m('C03-r2', 'C03', W + 'worterbuch.rs', _KAB_OLD, _KAB_NEW, None)
+m('C04-m5', 'C04', W + 'store.rs', """        self.value.is_none() && self.is_empty()""", """        self.value.is_none() || self.is_empty()""", 'C04.f')
+# parameter rename (reference parameter table)
+m('C08-r2', 'C08', W + 'worterbuch.rs', """        skip_read_only_check: bool,
+        client_id: ClientId,
+    ) -> Result<Vec<worterbuch_common::KeyValuePair>, WorterbuchError> {
+        if !skip_read_only_check {""", """        internal: bool,
+        client_id: ClientId,
+    ) -> Result<Vec<worterbuch_common::KeyValuePair>, WorterbuchError> {
+        if !internal {""", None)
+# local renames (locals are identified by provenance / shape)
+m('C16-r2', 'C16', W + 'worterbuch.rs', 'tick = send_trigger_rx.recv() => if tick.is_some() {', 'fired = send_trigger_rx.recv() => if fired.is_some() {', None)
+m('C06-r1', 'C06', W + 'store.rs', """            let (was_holder, new_holder) = lock.release(client_id).await;
+            if !was_holder {""", """            let (held, new_holder) = lock.release(client_id).await;
+            if !held {""", None)
+m('C19-r2', 'C19', OR + 'config.rs', """    let node_count = peers.len() + 1;
+
+    let recommended_min_quorum = node_count / 2 + 1;""", """    let node_count = 1 + peers.len();
+
+    let recommended_min_quorum = node_count / 2 + 1;""", None)
